@@ -78,6 +78,17 @@ def init_attr(repo: Repo, ci: ClassInfo, attr: str, env_attrs: Dict[str, SV]) ->
     out = vals[0]
     for v in vals[1:]:
         out = out if out == v else unk("different initial values")
+    if isinstance(out, SV) and out.kind == "unk":
+        # the value is assembled through locals of the constructor: analyse the constructor as a whole and read the attribute
+        it = Scaling(init, repo, cls=ci, attr_values=env_attrs)
+        env = {p: env_attrs.get(f"self.{p}", NONE_V) for p in init.params if p != "self"}
+        try:
+            final = it.run(env)
+        except Exception:
+            final = None
+        got = (final or {}).get(f"self.{attr}")
+        if isinstance(got, SV) and got.kind != "unk":
+            return got
     return out
 
 
